@@ -268,6 +268,10 @@ func VH_C10_NestedKinds() {
 		h = lh
 	}
 	vhAssert(h.vid == child.vid, "setup: handle identity")
+	// right after attachment the child is inline exactly when it fits
+	if isz, single := h.inlinedSize(); single {
+		vhAssert(h.inlined() == (isz <= childLimit), "attached child is inline exactly when it fits the per-element limit")
+	}
 	removedKeys := map[int]bool{}
 	staleGrand := false
 	childType, grandType := uint64(43), uint64(44)
